@@ -13,6 +13,7 @@ from vsym import harness, patcher, mutate
 from vsym.build import sym_dp, float_dp, model_values
 from vsym.ctx import CTX, Inconclusive
 from vsym.shapes import Forest, shapes_by_clone_count
+from vsym.histories import build_prune_regraft
 from vsym.vq import V
 import z3
 
@@ -28,6 +29,21 @@ CANARIES = {
 
 def apply_canary(name):
     return mutate.mutate(*CANARIES[name])
+
+
+def _first_of_siblings(f):
+    for i in [None] + list(range(len(f.blocks))):
+        ch = f.roots() if i is None else f.children(i)
+        if len(ch) >= 2:
+            return ch[0]
+    return None
+
+
+def _build(forest, dps, grid, regraft):
+    if regraft is None:
+        return forest.to_tree(dps, grid)
+    t = build_prune_regraft(forest, dps, grid, regraft)
+    return t if t is not None else forest.to_tree(dps, grid)
 
 
 def _fj(job):
@@ -46,6 +62,12 @@ def jobs(tier, seed):
             seen.add(key)
             out.append({"name": f"G{G}-D{D}-{f.describe()}", "blocks": f.blocks, "parent": f.parent, "G": G, "D": D,
                         "cost": (G ** len(f.blocks)) ** D * len(f.blocks)})
+            # the same forest reached by pruning the first of several siblings and grafting it back: the sibling order in
+            # the graph then differs from the order of the clone names (as after any prune-regraft move in a run)
+            w = _first_of_siblings(f)
+            if w is not None and G == 3 and D == 1:
+                out.append({"name": f"G{G}-D{D}-{f.describe()}-regrafted{w}", "blocks": f.blocks, "parent": f.parent, "G": G, "D": D,
+                            "regraft": w, "cost": (G ** len(f.blocks)) ** D * len(f.blocks)})
     f2 = Forest([[0, 1], [2]], [None, 0])
     out.append({"name": f"G3-D1-{f2.describe()}", "blocks": f2.blocks, "parent": f2.parent, "G": 3, "D": 1, "cost": 10})
     cherry = Forest([[0], [1], [2]], [2, 2, None])
@@ -102,7 +124,7 @@ def work(job):
     CTX.new_session()
     n = forest.n
     dps = [sym_dp(i, D, G) for i in range(n)]
-    tree = forest.to_tree(dps, (D, G))
+    tree = _build(forest, dps, (D, G), job.get("regraft"))
     feas = list(feasible_assignments(forest, G))
 
     def val(assign, d):
@@ -168,7 +190,8 @@ def work(job):
     res["twin_ok"] = len(paths) > 0
     res["status"] = "cex" if res["cex"] else "ok"
     for c in res["cex"]:
-        c.update({"blocks": forest.blocks, "parent": forest.parent, "G": G, "D": D, "finding_key": "C10:" + c["kind"]})
+        c.update({"blocks": forest.blocks, "parent": forest.parent, "G": G, "D": D, "regraft": job.get("regraft"),
+                  "finding_key": "C10:" + c["kind"]})
     res["sample"] = {"forest": forest.describe(), "G": G, "D": D, "paths": len(paths), "feasible_assignments": len(feas),
                      "distinct_optima_reached": len(res["optima"])}
     res["optima"] = len(res["optima"])
@@ -181,13 +204,13 @@ def replay(case):
     G, D = case["G"], case["D"]
     # as in the exploration (and as when a summary command walks a trace) the same forest is evaluated more than once in one
     # process with other data first
-    warm = forest.to_tree([float_dp(i, D, G, {}) for i in range(forest.n)], (D, G))
+    warm = _build(forest, [float_dp(i, D, G, {}) for i in range(forest.n)], (D, G), case.get("regraft"))
     try:
         get_map_node_ccfs_and_clonal_prev_dicts(warm)
     except Exception:  # noqa - only the call on the counterexample's data is judged
         pass
     dps = [float_dp(i, D, G, case.get("values", {})) for i in range(forest.n)]
-    tree = forest.to_tree(dps, (D, G))
+    tree = _build(forest, dps, (D, G), case.get("regraft"))
     try:
         ccf, prev = get_map_node_ccfs_and_clonal_prev_dicts(tree)
     except Exception as e:  # noqa
@@ -220,7 +243,7 @@ def evidence(tier, seed, results, canaries):
                            "satisfy the tree constraints (ground), clonal prevalence = ccf - children >= 0 (ground), and z3 proves that no "
                            "feasible assignment (brute-force list) has a strictly larger likelihood anywhere in the path's region.",
             "functions_encoded": funcs,
-            "bounds": {"quick": "all forest shapes with <= 3 clones at grid 3, one sample; <= 2 clones with 2 samples", "thorough": "<= 4 clones at grid 3; <= 3 clones at grid 4"},
+            "bounds": {"quick": "all forest shapes with <= 3 clones at grid 3, one sample, each also as reached by a prune-regraft of the first of several siblings (sibling order in the graph != name order); <= 2 clones with 2 samples", "thorough": "<= 4 clones at grid 3 (with the regrafted variants); <= 3 clones at grid 4"},
             "outside_bounds": ["floating-point ties/rounding (1e-12 clause)", "larger grids and trees"],
             "obligations": obligations, "discharged": discharged,
             "evaluations": agg["paths"], "distinct_nontrivial": sum(r.get("optima", 0) for r in real if r.get("nontrivial")),
